@@ -236,6 +236,10 @@ def validate_trace(module, cfg, trace_path, tag, timeout=900, workers=1, extra_e
     r["wall_s"] = round(time.time() - t0, 1)
     r["accepted"] = r["ok"]
     r["rejected_at"] = None
+    # a trace spec may accept a step only by way of a specific, separately recorded finding and say so
+    r["finding_hits"] = {}
+    for m in re.finditer(r'<<"KNOWN-FINDING-HIT", "([^"]+)">>', out):
+        r["finding_hits"][m.group(1)] = r["finding_hits"].get(m.group(1), 0) + 1
     m = _RE_REJ.search(out)
     if m:
         r["rejected_at"] = int(m.group(1))
@@ -254,6 +258,7 @@ def record_and_validate(engine, module, cfg, tier, tag, seed, runs, steps, chunk
     counters = {}
     samples = []
     drift_notes = []
+    finding_hits = {}
     wall = 0.0
     for c in range(chunks):
         path = os.path.join(WORK, f"trace_{tag}_{c}.ndjson")
@@ -272,6 +277,8 @@ def record_and_validate(engine, module, cfg, tier, tag, seed, runs, steps, chunk
                         samples.append(json.loads(ln))
         v = validate_trace(module, cfg, path, f"{tag}_{c}", extra_env=extra_env)
         wall += v["wall_s"]
+        for k, cnt in v.get("finding_hits", {}).items():
+            finding_hits[k] = finding_hits.get(k, 0) + cnt
         if v["accepted"] and drift_cfg:
             dv = validate_trace(module, drift_cfg, path, f"{tag}_{c}_exact", extra_env=extra_env)
             wall += dv["wall_s"]
@@ -282,12 +289,12 @@ def record_and_validate(engine, module, cfg, tier, tag, seed, runs, steps, chunk
             keep = os.path.join(REPLAYS, f"{tag}_seed{seed}_chunk{c}.ndjson")
             subprocess.run(["cp", path, keep])
             return ({"events": total_events, "runs": runs * (c + 1), "states": total_states,
-                     "counters": counters, "samples": samples, "wall_s": wall},
+                     "counters": counters, "samples": samples, "wall_s": wall, "finding_hits": finding_hits},
                     {"trace": keep, "line": v["rejected_at"], "event": v.get("rejected_event"),
                      "violated": v["violated"], "errors": v["errors"], "module": module})
         os.remove(path)
     return ({"events": total_events, "runs": runs * chunks, "states": total_states, "counters": counters,
-             "samples": samples, "wall_s": wall, "drift": drift_notes}, None)
+             "samples": samples, "wall_s": wall, "drift": drift_notes, "finding_hits": finding_hits}, None)
 
 
 # --------------------------------------------------------------------------
@@ -362,7 +369,8 @@ class Verdict:
     def violation(self, key, what, payload):
         f = finding_for(self.prop, key)
         if f:
-            self.known.append((key, f["what"]))
+            if all(k != key for k, _ in self.known):
+                self.known.append((key, f["what"]))
         else:
             self.violations.append((key, what, payload))
 
@@ -457,6 +465,9 @@ def trace_part(v, name, engine, module, cfg, tier, key_prefix, runs, steps, chun
     summ, rej = record_and_validate(engine, module, cfg, tier, f"{v.prop}_{slug(name)}", v.seed, runs, steps,
                                     chunks=chunks, extra=extra, extra_env=extra_env, drift_cfg=drift_cfg)
     v.add_traces(name, summ)
+    for key, cnt in (summ.get("finding_hits") or {}).items():
+        v.violation(key, f"{cnt} step(s) of recorded behaviours of the real code are explained only by the specific "
+                         f"deviation `{key}`", {"module": module, "count": cnt})
     if summ.get("drift"):
         v.drift(name, f"recorded behaviour satisfies the property but differs from the code-shaped model "
                       f"{module} at line {summ['drift'][0]['line']}: {(summ['drift'][0].get('event') or '')[:300]}")
